@@ -1037,3 +1037,93 @@ pub async fn sunset(w: &mut World, m: &mut Mon, r: &mut R, lev: &Lev, g: usize, 
     let o = w.exec(m, &[i], &[&who]).await;
     m.r.count(if o.ok() { "scen.sunset_purge_committed" } else { "scen.sunset_purge_rejected" });
 }
+
+/// E-mode across two debts: the collateral's tag is listed by only one of the two borrowed banks, so
+/// the preferential weight must not apply; the listing request repeats the tag in non-adjacent
+/// slots first (an accepted table must not make the tag look common to both banks).
+pub async fn emode_overlap(w: &mut World, m: &mut Mon, r: &mut R, g: usize, lender: usize) {
+    let cands: Vec<usize> = (0..w.banks.len()).filter(|b| w.banks[*b].group == g && usable_collateral(w, *b) && matches!(w.banks[*b].oracle, OracleD::Pyth(_) | OracleD::Swb(_))).collect();
+    let dbs: Vec<usize> = (0..w.banks.len()).filter(|b| w.banks[*b].group == g && w.bank(*b).config.operational_state == BankOperationalState::Operational && w.bank(*b).config.asset_tag == 0 && w.bank(*b).config.risk_tier == RiskTier::Collateral && w.banks[*b].venue.is_none()).collect();
+    if cands.is_empty() || dbs.len() < 3 {
+        m.r.count("scen.emode_overlap_not_possible");
+        return;
+    }
+    let z = pick(r, &cands);
+    let others: Vec<usize> = dbs.iter().cloned().filter(|b| *b != z).collect();
+    if others.len() < 2 {
+        m.r.count("scen.emode_overlap_not_possible");
+        return;
+    }
+    let x = pick(r, &others);
+    let ys: Vec<usize> = others.iter().cloned().filter(|b| *b != x).collect();
+    let y = pick(r, &ys);
+    let gk = w.groups[g].key;
+    let ea = clone_kp(&w.groups[g].emode);
+    let zero_w: WrappedI80F48 = wi(0.0);
+    let empty = [EmodeEntry { collateral_bank_emode_tag: 0, flags: 0, pad0: [0; 5], asset_weight_init: zero_w, asset_weight_maint: zero_w }; MAX_EMODE_ENTRIES];
+    // the collateral carries tag 5
+    let i = ix::configure_bank_emode(gk, ea.pubkey(), w.banks[z].key, 5, empty);
+    if !w.exec(m, &[i], &[&ea]).await.ok() {
+        m.r.count("scen.emode_overlap_tagging_rejected");
+        return;
+    }
+    let entry = |bank: &Bank, tag: u16| {
+        let li = to_f64(&fx(&bank.config.liability_weight_init.value));
+        let lm = to_f64(&fx(&bank.config.liability_weight_maint.value));
+        let ci = (li * 0.92).min(lm * 0.94);
+        let cm = (ci + 0.01).min(lm * 0.945).max(ci);
+        EmodeEntry { collateral_bank_emode_tag: tag, flags: 0, pad0: [0; 5], asset_weight_init: wi(ci), asset_weight_maint: wi(cm) }
+    };
+    // bank X lists tag 5 (first asked for with the tag repeated around another one), bank Y does not
+    let bx = w.bank(x);
+    let mut dup = empty;
+    dup[0] = entry(&bx, 5);
+    dup[1] = entry(&bx, 3);
+    dup[2] = entry(&bx, 5);
+    let i = ix::configure_bank_emode(gk, ea.pubkey(), w.banks[x].key, 0, dup);
+    let o = w.exec(m, &[i], &[&ea]).await;
+    m.r.count(if o.ok() { "scen.emode_table_with_repeated_tag_accepted" } else { "scen.emode_table_with_repeated_tag_rejected" });
+    if !o.ok() {
+        let mut t = empty;
+        t[0] = entry(&bx, 5);
+        t[1] = entry(&bx, 3);
+        let i = ix::configure_bank_emode(gk, ea.pubkey(), w.banks[x].key, 0, t);
+        let _ = w.exec(m, &[i], &[&ea]).await;
+    }
+    let by = w.bank(y);
+    let mut t = empty;
+    t[0] = entry(&by, 3);
+    let i = ix::configure_bank_emode(gk, ea.pubkey(), w.banks[y].key, 0, t);
+    let _ = w.exec(m, &[i], &[&ea]).await;
+    // liquidity in both debt banks
+    let lk = w.auth_of(lender);
+    for b in [x, y] {
+        let i = w.ix_deposit(lender, b, lk.pubkey(), w.ta_of(lender, b), 1 << 34, None);
+        let _ = w.exec(m, &[i], &[&lk]).await;
+    }
+    let u = w.add_user(1u64 << 40).await;
+    let a = w.add_account(g, u).await;
+    let auth = w.auth_of(a);
+    let ak = auth.pubkey();
+    let i = w.ix_deposit(a, z, ak, w.ta_of(a, z), pick(r, &[50_000_000u64, 1 << 30]), None);
+    if !w.exec(m, &[i], &[&auth]).await.ok() {
+        return;
+    }
+    let i = w.ix_borrow(a, x, ak, w.ta_of(a, x), pick(r, &[10u64, 1000]));
+    if !w.exec(m, &[i], &[&auth]).await.ok() {
+        m.r.count("scen.emode_overlap_first_borrow_rejected");
+        return;
+    }
+    let hi = w.token(&w.banks[y].k.lv);
+    let ta = w.ta_of(a, y);
+    if let Some(max) = bisect_max(w, m, &[&auth], hi, |w, v| vec![w.ix_borrow(a, y, ak, ta, v)]).await {
+        if max > 0 {
+            let i = w.ix_borrow(a, y, ak, ta, max);
+            if w.exec(m, &[i], &[&auth]).await.ok() {
+                m.r.count("scen.emode_overlap_borrowed_to_the_limit");
+            }
+        }
+    }
+    let i = ix::pulse_health(w.accts[a].key, w.risk_metas(a, None, None));
+    let _ = w.exec(m, &[i], &[]).await;
+}
